@@ -184,10 +184,10 @@ def triads(key):
     Implemented using a cache.
     """
     if key in _triads_cache:
-        return _triads_cache[key]
+        return [list(x) for x in _triads_cache[key]]
     res = [triad(x, key) for x in keys.get_notes(key)]
     _triads_cache[key] = res
-    return res
+    return [list(x) for x in res]
 
 
 def major_triad(note):
@@ -247,10 +247,10 @@ def seventh(note, key):
 def sevenths(key):
     """Return all the sevenths chords in key in a list."""
     if key in _sevenths_cache:
-        return _sevenths_cache[key]
+        return [list(x) for x in _sevenths_cache[key]]
     res = [seventh(x, key) for x in keys.get_notes(key)]
     _sevenths_cache[key] = res
-    return res
+    return [list(x) for x in res]
 
 
 def major_seventh(note):
